@@ -1,9 +1,11 @@
 mod asm;
+mod csum;
 mod dev;
 mod dhcp;
 mod dns;
 mod frag;
 mod frames;
+mod ingress;
 mod neigh;
 mod tcp;
 mod pbuf;
@@ -28,6 +30,8 @@ fn main() {
         "frag-random" => frag::random(&args),
         "neigh-random" => neigh::random(&args),
         "dhcp-random" => dhcp::random(&args),
+        "csum-replay" => csum::replay(&args),
+        "ingress-replay" => ingress::replay(&args),
         "dns-random" => dns::random(&args),
         "dnsname-replay" => dns::name_replay(&args),
         "pollat-random" => pollat::random(&args),
